@@ -21,9 +21,10 @@ GhostInit ==
      nonces |-> {},                          \* <<sender, nonce>> that reached execution
      res    |-> {},                          \* <<eon, sender, ok>> DKG result votes answered Ok
      seen   |-> [a \in Addrs |-> -1],        \* highest block reported by a (Ok answers)
+     ids    |-> [a \in Addrs |-> NoKey],     \* validator key of a's last ACCEPTED check-in
      tm     |-> Genesis.vals]                \* validator set folded the way Tendermint does
 
-HasNonce(tx) == tx.k \notin {"garbage", "wrongchain"}
+HasNonce(tx) == tx.k \notin {"garbage", "wrongchain", "forged"}
 Accepted(pre, post) == Len(post.configs) # Len(pre.configs)
 
 ApplyUpdates(tm, ups) ==
@@ -39,7 +40,9 @@ GhostNext(g, pre, kind, tx, r, post) ==
                    ELSE IF tx.k = "vote" /\ r.code = CodeOk THEN @ \cup {<<tx.s, tx.cfg>>} ELSE @,
         !.res    = IF tx.k = "dkgres" /\ r.code = CodeOk THEN @ \cup {<<tx.eon, tx.s, tx.ok>>} ELSE @,
         !.seen   = IF tx.k = "seen" /\ r.code = CodeOk /\ tx.b > g.seen[tx.s]
-                   THEN [@ EXCEPT ![tx.s] = tx.b] ELSE @]
+                   THEN [@ EXCEPT ![tx.s] = tx.b] ELSE @,
+        !.ids    = IF tx.k = "checkin" /\ r.code = CodeOk /\ tx.s \in Addrs
+                   THEN [@ EXCEPT ![tx.s] = tx.key] ELSE @]
     ELSE IF kind = "end" THEN [g EXCEPT !.tm = ApplyUpdates(g.tm, r.updates)]
     ELSE g
 
@@ -105,10 +108,18 @@ C11_Started(g, pre, kind, tx, r, post) ==
 ----------------------------------------------------------------------------
 (* C12 *)
 
-IntendedValidators(post) ==
+(* the intended set, stated independently of the application's bookkeeping of identities: ten
+   units per (distinct) keyper of the newest started configuration whose check-in quorum is met,
+   on the key of the keyper's last ACCEPTED check-in (ghost), else on the placeholder *)
+KeyperSetOf(c) == ToSet(c.keypers)
+GCheckedIn(ids, c) == Cardinality({a \in KeyperSetOf(c) : ids[a] # NoKey})
+IntendedPowermap(ids, c) ==
+    [k \in AllKeys |->
+        10 * Cardinality({a \in KeyperSetOf(c) : IF ids[a] = NoKey THEN k = NoVal ELSE k = ids[a]})]
+IntendedValidators(ids, post) ==
     LET ok == {i \in DOMAIN post.configs :
-                 post.configs[i].started /\ CheckedIn(post, post.configs[i]) >= RequiredCheckIns(post.configs[i])}
-    IN IF ok = {} THEN Genesis.vals ELSE MakePowermap(post, post.configs[Max(ok)])
+                 post.configs[i].started /\ GCheckedIn(ids, post.configs[i]) >= RequiredCheckIns(post.configs[i])}
+    IN IF ok = {} THEN Genesis.vals ELSE IntendedPowermap(ids, post.configs[Max(ok)])
 
 Total(pm) == FoldSet(LAMBDA k, acc : acc + pm[k], 0, AllKeys)
 
@@ -120,7 +131,7 @@ C12_Updates(g, pre, kind, tx, r, post) ==
       /\ \A i, j \in DOMAIN r.updates : i < j => KeyPos(r.updates[i].key) < KeyPos(r.updates[j].key)
       /\ \A i \in DOMAIN r.updates : r.updates[i].power >= 0
       /\ \A i \in DOMAIN r.updates : r.updates[i].power = 0 => g.tm[r.updates[i].key] > 0
-      /\ tm2 = IntendedValidators(post)
+      /\ tm2 = IntendedValidators(g.ids, post)
       /\ tm2 # g.tm => 3 * (Total(tm2) - tm2[NoVal]) > 2 * Total(tm2)
       /\ Total(tm2) > 0
 
@@ -128,7 +139,7 @@ C12_Updates(g, pre, kind, tx, r, post) ==
 (* C10, single-run part: refused transactions are answered with an error and
    change nothing (the twin part is in ShuttermintTrace) *)
 
-Malformed(tx) == tx.k \in {"garbage", "wrongchain", "nopayload"} \/ tx.bad # ""
+Malformed(tx) == tx.k \in {"garbage", "wrongchain", "nopayload", "forged"} \/ tx.bad # ""
 ExceptNonces(s) == [s EXCEPT !.nonces = [a \in Addrs |-> <<>>]]
 
 C10_Refused(g, pre, kind, tx, r, post) ==
@@ -136,7 +147,7 @@ C10_Refused(g, pre, kind, tx, r, post) ==
           /\ r.code # CodeOk /\ r.events = <<>> /\ r.updates = <<>>
           /\ ExceptNonces(post) = ExceptNonces(pre)
           /\ \A a \in Addrs : a # tx.s => post.nonces[a] = pre.nonces[a]
-    /\ (kind = "chk" /\ (tx.k \in {"garbage", "wrongchain"} \/ tx.s \notin AllMembers(pre)
+    /\ (kind = "chk" /\ (tx.k \in {"garbage", "wrongchain", "forged"} \/ tx.s \notin AllMembers(pre)
                           \/ (HasNonce(tx) /\ <<tx.s, tx.n>> \in g.nonces))) => r.code # 0
     /\ (kind = "chk") => [post EXCEPT !.ctCounts = pre.ctCounts, !.ctNonces = pre.ctNonces] = pre
     (* a transaction of an address outside every accepted keyper set: no events, no vote,
